@@ -1237,7 +1237,8 @@ impl Circuit
                     state.set_reset(qbit)?;
                 },
                 CircuitOp::ResetAll => {
-                    state.start_range_op(&[0, self.nr_qbits-1], None)?;
+                    let qbits: Vec<usize> = (0..self.nr_qbits).collect();
+                    state.start_range_op(&qbits, None)?;
                     for qbit in 0..self.nr_qbits
                     {
                         state.set_reset(qbit)?;
